@@ -371,6 +371,13 @@ func (r *run) runStream() {
 	prop := r.o.Property
 	thorough := r.o.Tier == "thorough"
 	hp := &histPlan{inDomain: true}
+	if prop == "C15" && t.Chance(core.Ext, 1, 2) {
+		// "never modifies the telemetry it is given" has no domain restriction: inputs the
+		// round-trip properties exclude (invalid UTF-8, timestamps beyond 2^63-1, nesting deeper
+		// than 16) must come back untouched too, whether they encode or are refused
+		hp.inDomain = false
+		r.probe("history_with_out_of_domain_inputs")
+	}
 	opt := defaultOptions()
 	switch prop {
 	case "C01":
